@@ -2,11 +2,11 @@
     This file contains only the pinned statements; the specification ([Relations], [RelationsM],
     [present], [declares], [Required], [excused], [cond_required], ...) and the proofs live in
     ParseProofs/Relations.v. *)
-From Coq Require Import ZArith List Bool.
+From Coq Require Import ZArith List Bool Relations.Relation_Operators.
 Import ListNotations.
 From ClapModel Require Import Base.Bytes Base.Machine.
 From ClapModel Require Import Parse.Cmd Parse.Build Parse.Valid Parse.Matcher Parse.Errors Parse.Validator Parse.Parser.
-From ClapModel Require Import ParseProofs.Relations ParseProofs.RelationsTree.
+From ClapModel Require Import ParseProofs.Relations ParseProofs.RelationsTree ParseProofs.RelationsClauses.
 From ClapModel Require Import ParseProofs.Safe ParseProofs.Invariant ParseProofs.Totality ParseProofs.TotalityMain ParseProofs.IndexInv.
 From ClapModel Require Import ParseProofs.Globals.
 From RecordUpdate Require Import RecordSet.
@@ -185,3 +185,180 @@ Theorem C03_tree_nonvacuous :
   /\ (exists e, do_parse t_cmd [dd [120;120]; [115]; dd [97;97]] = OErr e /\ e_kind e = EMissingRequiredArgument).
 Proof. exact parse_sound_tree_nonvacuous. Qed.
 Print Assumptions C03_tree_nonvacuous.
+
+(** ---------------------------------------------------------------------------------------
+    CLAUSE BY CLAUSE (round 2; ParseProofs/RelationsClauses.v): every sentence of the property
+    text as its own consequence of [Relations], for ALL relation graphs and all matchers.
+    Together with [C03_parse_sound_tree] each of them holds at every level of every successful
+    parse of the class. *)
+
+(** (R1) [conflicts_with]; [overrides_with] ("overrides are implicitly conflicts"); a conflict
+    declared by a group holds for its members; a group's conflict against a present arg; an arg
+    naming a group *)
+Theorem C03_clause_conflicts_with : forall c mt, Relations c mt -> forall i a y,
+  arg_of c i a -> In y (a_blacklist a) -> y <> i -> present mt i -> present mt y -> False.
+Proof. exact clause_conflicts_with. Qed.
+Print Assumptions C03_clause_conflicts_with.
+
+Theorem C03_clause_overrides_conflict : forall c mt, Relations c mt -> forall i a y,
+  arg_of c i a -> In y (a_overrides a) -> y <> i -> present mt i -> present mt y -> False.
+Proof. exact clause_overrides_conflict. Qed.
+Print Assumptions C03_clause_overrides_conflict.
+
+Theorem C03_clause_group_conflict_member : forall c mt, Relations c mt -> forall i a g y,
+  arg_of c i a -> member c i g -> In y (g_conflicts g) -> y <> i -> present mt i -> present mt y -> False.
+Proof. exact clause_group_conflict_member. Qed.
+Print Assumptions C03_clause_group_conflict_member.
+
+Theorem C03_clause_group_conflicts_with : forall c mt, Relations c mt -> forall x g y b,
+  group_of c x g -> In y (g_conflicts g) -> arg_of c y b -> present mt x -> present mt y -> False.
+Proof. exact clause_group_conflicts_with. Qed.
+Print Assumptions C03_clause_group_conflicts_with.
+
+Theorem C03_clause_conflicts_with_group : forall c mt, Relations c mt -> forall i a x g,
+  arg_of c i a -> In x (a_blacklist a) -> group_of c x g -> present mt i -> present mt x -> False.
+Proof. exact clause_conflicts_with_group. Qed.
+Print Assumptions C03_clause_conflicts_with_group.
+
+(** (R2) an exclusive argument is present alone *)
+Theorem C03_clause_exclusive : forall c mt, Relations c mt -> forall i a j b,
+  arg_of c i a -> a_exclusive a = true -> present mt i -> arg_of c j b -> present mt j -> j = i.
+Proof. exact clause_exclusive. Qed.
+Print Assumptions C03_clause_exclusive.
+
+(** (R3) required: statically; through a fired [requires]/[requires_if] (arg or group target);
+    through chains of [requires] (transitive closure, by induction on the chain); where no
+    exemption applies the whole closure is present; a fired [requires_if] followed by a chain;
+    required groups, what they require, what a present group requires.
+    [arg_satisfied]: present, or an exclusive arg is present, or [excused] (something present
+    conflicts with it -- the documented exemptions, exactly as [is_missing_required_ok] grants
+    them); [group_satisfied]: the group's entry or a member is present (no exemption). *)
+Theorem C03_clause_required_static : forall c mt, Relations c mt -> negates_reqs c mt = false ->
+  forall i a, arg_of c i a -> a_required a = true -> arg_satisfied c mt i.
+Proof. exact clause_required_static. Qed.
+Print Assumptions C03_clause_required_static.
+
+Theorem C03_clause_requires_arg : forall c mt, Relations c mt -> negates_reqs c mt = false ->
+  forall i a m p y b,
+  arg_of c i a -> fm_get i (mt_args mt) = Some m -> In (p, y) (a_requires a) -> Relations.holds p m ->
+  arg_of c y b -> arg_satisfied c mt y.
+Proof. exact clause_requires_arg. Qed.
+Print Assumptions C03_clause_requires_arg.
+
+Theorem C03_clause_requires_group : forall c mt, Relations c mt -> negates_reqs c mt = false ->
+  forall i a m p y g,
+  arg_of c i a -> fm_get i (mt_args mt) = Some m -> In (p, y) (a_requires a) -> Relations.holds p m ->
+  group_of c y g -> group_satisfied mt y g.
+Proof. exact clause_requires_group. Qed.
+Print Assumptions C03_clause_requires_group.
+
+Theorem C03_clause_requires_chain : forall c mt, Relations c mt -> negates_reqs c mt = false ->
+  forall root y b,
+  present mt root -> clos_trans_1n id (requires_edge c) root y -> arg_of c y b -> arg_satisfied c mt y.
+Proof. exact clause_requires_chain. Qed.
+Print Assumptions C03_clause_requires_chain.
+
+Theorem C03_clause_requires_chain_present : forall c mt, Relations c mt -> negates_reqs c mt = false ->
+  forall root y b,
+  ~ exclusive_present c (present mt) -> ~ excused c (present mt) y ->
+  present mt root -> clos_trans_1n id (requires_edge c) root y -> arg_of c y b -> present mt y.
+Proof. exact clause_requires_chain_present. Qed.
+Print Assumptions C03_clause_requires_chain_present.
+
+Theorem C03_clause_requires_if_then_chain : forall c mt, Relations c mt -> negates_reqs c mt = false ->
+  forall i a m p x y b,
+  arg_of c i a -> fm_get i (mt_args mt) = Some m -> In (p, x) (a_requires a) -> Relations.holds p m ->
+  clos_trans_1n id (requires_edge c) x y -> arg_of c y b -> arg_satisfied c mt y.
+Proof. exact clause_requires_if_then_chain. Qed.
+Print Assumptions C03_clause_requires_if_then_chain.
+
+Theorem C03_clause_required_group : forall c mt, Relations c mt -> negates_reqs c mt = false ->
+  forall g, In g (c_groups c) -> g_required g = true -> group_of c (g_id g) g -> group_satisfied mt (g_id g) g.
+Proof. exact clause_required_group. Qed.
+Print Assumptions C03_clause_required_group.
+
+Theorem C03_clause_required_group_requires : forall c mt, Relations c mt -> negates_reqs c mt = false ->
+  forall g y b, In g (c_groups c) -> g_required g = true -> In y (g_requires g) -> arg_of c y b -> arg_satisfied c mt y.
+Proof. exact clause_required_group_requires. Qed.
+Print Assumptions C03_clause_required_group_requires.
+
+Theorem C03_clause_present_group_requires : forall c mt, Relations c mt -> negates_reqs c mt = false ->
+  forall x g y b, group_of c x g -> present mt x -> In y (g_requires g) -> arg_of c y b -> arg_satisfied c mt y.
+Proof. exact clause_present_group_requires. Qed.
+Print Assumptions C03_clause_present_group_requires.
+
+(** the conditional rules: [required_if_eq], [required_if_eq_all], [required_unless_present(_any)],
+    [required_unless_present_all], both lists; the only exemption the code grants is a present
+    exclusive argument (no conflict exemption: see [C03_exemptions_granted]) *)
+Theorem C03_clause_required_if_eq : forall c mt, Relations c mt -> negates_reqs c mt = false ->
+  forall a o v, In a (c_args c) -> In (o, v) (a_r_ifs a) -> has_value mt o v ->
+  present mt (a_id a) \/ exclusive_present c (present mt).
+Proof. exact clause_required_if_eq. Qed.
+Print Assumptions C03_clause_required_if_eq.
+
+Theorem C03_clause_required_if_eq_all : forall c mt, Relations c mt -> negates_reqs c mt = false ->
+  forall a, In a (c_args c) -> a_r_ifs_all a <> [] -> (forall o v, In (o, v) (a_r_ifs_all a) -> has_value mt o v) ->
+  present mt (a_id a) \/ exclusive_present c (present mt).
+Proof. exact clause_required_if_eq_all. Qed.
+Print Assumptions C03_clause_required_if_eq_all.
+
+Theorem C03_clause_required_unless_present_any : forall c mt, Relations c mt -> negates_reqs c mt = false ->
+  forall a, In a (c_args c) -> a_r_unless a <> [] -> a_r_unless_all a = [] ->
+  (forall o, In o (a_r_unless a) -> ~ present mt o) -> present mt (a_id a) \/ exclusive_present c (present mt).
+Proof. exact clause_required_unless_present_any. Qed.
+Print Assumptions C03_clause_required_unless_present_any.
+
+Theorem C03_clause_required_unless_present_all : forall c mt, Relations c mt -> negates_reqs c mt = false ->
+  forall a o, In a (c_args c) -> a_r_unless a = [] -> In o (a_r_unless_all a) -> ~ present mt o ->
+  present mt (a_id a) \/ exclusive_present c (present mt).
+Proof. exact clause_required_unless_present_all. Qed.
+Print Assumptions C03_clause_required_unless_present_all.
+
+Theorem C03_clause_required_unless_both : forall c mt, Relations c mt -> negates_reqs c mt = false ->
+  forall a o, In a (c_args c) -> (forall o', In o' (a_r_unless a) -> ~ present mt o') ->
+  In o (a_r_unless_all a) -> ~ present mt o -> present mt (a_id a) \/ exclusive_present c (present mt).
+Proof. exact clause_required_unless_both. Qed.
+Print Assumptions C03_clause_required_unless_both.
+
+(** (R4) defaults never count as presence, for every rule at once: [Relations] is a function of
+    the explicit entries ([explicit_view]: an entry whose source is [DefaultValue] reads as no
+    entry) and of "a subcommand was used" *)
+Theorem C03_defaults_inert : forall c mt mt',
+  (forall i, explicit_view mt i = explicit_view mt' i) -> is_some (mt_sub mt) = is_some (mt_sub mt') ->
+  Relations c mt -> Relations c mt'.
+Proof. exact Relations_defaults_inert. Qed.
+Print Assumptions C03_defaults_inert.
+
+Theorem C03_default_invisible : forall mt i m,
+  fm_get i (mt_args mt) = Some m -> m_source m = Some SDefault ->
+  explicit_view mt i = None /\ ~ present mt i /\ forall p, ~ Relations.holds p m.
+Proof. exact default_entry_invisible. Qed.
+Print Assumptions C03_default_invisible.
+
+(** witnesses: the hypotheses of the clause theorems are satisfiable (a chain of [requires], all
+    present; rejected without its end); each exemption is really granted (conflict, exclusive,
+    subcommand-negates-requirements) and a conditional rule has NO conflict exemption; a default
+    entry exists next to the explicit ones and is invisible *)
+Theorem C03_clauses_nonvacuous :
+  valid e_cmd = true
+  /\ ok_with e_cmd [dd [97;97]; dd [98;98]; dd [99;99]; dd [114;114]] [i_a; i_b; i_c; i_r] [i_k; i_e; i_x]
+  /\ clos_trans_1n id (requires_edge (build_self e_cmd)) i_a i_c
+  /\ rejected_with e_cmd [dd [97;97]; dd [98;98]; dd [114;114]] EMissingRequiredArgument.
+Proof. exact clauses_nonvacuous. Qed.
+Print Assumptions C03_clauses_nonvacuous.
+
+Theorem C03_exemptions_granted :
+  ok_with e_cmd [dd [107;107]; dd [97;97]; dd [98;98]; dd [99;99]] [i_k; i_a] [i_r]
+  /\ ok_with e_cmd [dd [101;101]] [i_e] [i_r; i_x]
+  /\ valid e_sub_cmd = true /\ ok_with e_sub_cmd [[115]] [] [i_r]
+  /\ rejected_with e_sub_cmd [] EMissingRequiredArgument
+  /\ rejected_with e_cmd [dd [107;107]] EMissingRequiredArgument.
+Proof. exact exemptions_granted. Qed.
+Print Assumptions C03_exemptions_granted.
+
+Theorem C03_defaults_nonvacuous :
+  exists st m, run_level e_cmd [dd [101;101]] = ROk st
+    /\ fm_get i_c (mt_args (mt st)) = Some m /\ m_source m = Some SDefault
+    /\ explicit_view (mt st) i_c = None /\ explicit_view (mt st) i_e <> None.
+Proof. exact defaults_nonvacuous. Qed.
+Print Assumptions C03_defaults_nonvacuous.
